@@ -172,6 +172,7 @@ package pickle
 //@   loop 0: step SHORT_BINUNICODE: when op == 140 ensures len(d.stack) == old(len(d.stack)) + 1 && istype(d.stack[old(len(d.stack))], "starlark.String") && len(d.stack[old(len(d.stack))].(starlark.String)) == conv("int", ibytes[d.r.r][old(ipos)[d.r.r] + 1]) && ipos[d.r.r] == old(ipos)[d.r.r] + 2 + conv("int", ibytes[d.r.r][old(ipos)[d.r.r] + 1])
 //@   loop 0: step SHORT_BINUNICODE-body: when op == 140 ensures forall i: int :: 0 <= i && i < conv("int", ibytes[d.r.r][old(ipos)[d.r.r] + 1]) ==> d.stack[old(len(d.stack))].(starlark.String)[i] == ibytes[d.r.r][old(ipos)[d.r.r] + 2 + i]
 //@   loop 0: step BINUNICODE: when op == 88 ensures len(d.stack) == old(len(d.stack)) + 1 && istype(d.stack[old(len(d.stack))], "starlark.String") && len(d.stack[old(len(d.stack))].(starlark.String)) == conv("int", le32(ibytes[d.r.r], old(ipos)[d.r.r] + 1)) && ipos[d.r.r] == old(ipos)[d.r.r] + 5 + conv("int", le32(ibytes[d.r.r], old(ipos)[d.r.r] + 1))
+//@   loop 0: step TUPLE-owns-its-elements: when op == 116 ensures len(d.stack) >= 1 && istype(d.stack[len(d.stack) - 1], "starlark.Tuple") && arr(d.stack[len(d.stack) - 1].(starlark.Tuple)) != arr(old(d.stack))
 //@   loop 0: step BINGET: when op == 104 && 0 <= conv("int", ibytes[d.r.r][old(ipos)[d.r.r] + 1]) ensures len(d.stack) == old(len(d.stack)) + 1 && ipos[d.r.r] == old(ipos)[d.r.r] + 2
 
 // Round trip of every scalar class: the decoder's step applied to the bytes the encoder's
